@@ -5,7 +5,8 @@ import common
 from common import fbits, bitsf, show_floats, show_ints, outcome, tmod
 
 DTN = {np.dtype(np.float32): 'f32', np.dtype(np.float64): 'f64', np.dtype(np.int8): 'i8', np.dtype(np.int32): 'i32', np.dtype(np.int64): 'i64', np.dtype(np.bool_): 'bool'}
-DT = {'f32': np.float32, 'f64': np.float64, 'i8': np.int8, 'i32': np.int32, 'i64': np.int64, 'bool': np.bool_}
+DT = {'f32': np.float32, 'f64': np.float64, 'i8': np.int8, 'i32': np.int32, 'i64': np.int64, 'bool': np.bool_,
+      'c64': np.complex64, 'c128': np.complex128, 'u8': np.uint8, 'i16': np.int16}      # the last four are spelled i64 for the model (`not floating`)
 
 
 def show_arr(a):
